@@ -3,6 +3,11 @@
 package main
 
 import (
+	"crypto/md5"
+	"crypto/sha1"
+	"crypto/sha256"
+	"encoding/base64"
+	"encoding/hex"
 	"encoding/json"
 	"fmt"
 	"os"
@@ -231,7 +236,153 @@ func (e *c09Env) prepare(method, pattern string) (target, body string) {
 }
 
 func (e *c09Env) subst(t string) string {
+	// derived values first: ${<fn>:<T>} with T in {A, U}
+	for strings.Contains(t, "${") {
+		i := strings.Index(t, "${")
+		j := strings.Index(t[i:], "}")
+		if j < 0 {
+			break
+		}
+		p := strings.SplitN(t[i+2:i+j], ":", 2)
+		v := "BAD-TEMPLATE"
+		if len(p) == 2 {
+			v = e.derive(p[0], p[1])
+		}
+		t = t[:i] + v + t[i+j+1:]
+	}
 	return strings.NewReplacer("$A", e.A, "$U", e.U, "$R", e.R, "$X", e.X).Replace(t)
+}
+
+// c09Derivations: values DERIVED from a valid credential (an issued token U, the admin token A) - none of them is
+// a credential: digests and encodings of it, case changes, reversal, neighbours, the row's other identifiers.
+var c09Derivations = []string{"sha256", "sha1", "md5", "sha256up", "b64", "b64url", "hex", "upper", "lower", "rev",
+	"nul", "nl", "pre", "suf", "dbl", "rowid", "quoted", "sha256sha256"}
+
+func (e *c09Env) derive(fn, which string) string {
+	v := e.U
+	if which == "A" {
+		v = e.A
+	}
+	switch fn {
+	case "sha256":
+		h := sha256.Sum256([]byte(v))
+		return hex.EncodeToString(h[:])
+	case "sha256up":
+		h := sha256.Sum256([]byte(v))
+		return strings.ToUpper(hex.EncodeToString(h[:]))
+	case "sha256sha256":
+		h := sha256.Sum256([]byte(v))
+		h2 := sha256.Sum256([]byte(hex.EncodeToString(h[:])))
+		return hex.EncodeToString(h2[:])
+	case "sha1":
+		h := sha1.Sum([]byte(v))
+		return hex.EncodeToString(h[:])
+	case "md5":
+		h := md5.Sum([]byte(v))
+		return hex.EncodeToString(h[:])
+	case "b64":
+		return base64.StdEncoding.EncodeToString([]byte(v))
+	case "b64url":
+		return base64.RawURLEncoding.EncodeToString([]byte(v))
+	case "hex":
+		return hex.EncodeToString([]byte(v))
+	case "upper":
+		return strings.ToUpper(v)
+	case "lower":
+		return strings.ToLower(v)
+	case "rev":
+		b := []byte(v)
+		for i, j := 0, len(b)-1; i < j; i, j = i+1, j-1 {
+			b[i], b[j] = b[j], b[i]
+		}
+		return string(b)
+	case "nul":
+		return v + "%00"
+	case "nl":
+		return v + "%0A"
+	case "pre":
+		if len(v) > 1 {
+			return v[:len(v)-1]
+		}
+		return v + "p"
+	case "suf":
+		return v + "0"
+	case "dbl":
+		return v + v
+	case "quoted":
+		return "\"" + v + "\""
+	case "rowid":
+		var id int64
+		if err := e.fs.DB.Get(&id, `SELECT rowid FROM tokens ORDER BY rowid LIMIT 1`); err != nil {
+			return "norow"
+		}
+		return fmt.Sprint(id)
+	}
+	return "BAD-DERIVATION"
+}
+
+// c09Spellings: non-canonical spellings of a concrete request path (applied to the part before '?').
+var c09Spellings = []string{"lead2", "ds1", "ds2", "ds3", "ds4", "ds5", "dot0", "dot2", "up0", "up2", "trail",
+	"pslash", "pletter", "plast", "upper", "upapi", "title", "bslash"}
+
+// spell returns the spelling of path p, or "" when it does not apply / changes nothing.
+func c09Spell(id, p string) string {
+	seg := strings.Split(p, "/") // "", "api", "v1", ...
+	join := func(s []string) string { return strings.Join(s, "/") }
+	out := p
+	switch {
+	case id == "lead2":
+		out = "/" + p
+	case strings.HasPrefix(id, "ds"):
+		i := int(id[2] - '0')
+		if i >= len(seg)-1 {
+			return ""
+		}
+		c := append([]string{}, seg[:i+1]...)
+		c = append(c, "")
+		c = append(c, seg[i+1:]...)
+		out = join(c)
+	case id == "dot0":
+		out = "/." + p
+	case id == "dot2" && len(seg) > 2:
+		out = join(append(append(append([]string{}, seg[:2]...), "."), seg[2:]...))
+	case id == "up0":
+		out = "/x/.." + p
+	case id == "up2" && len(seg) > 2:
+		out = join(append(append(append([]string{}, seg[:2]...), "x", ".."), seg[2:]...))
+	case id == "trail":
+		out = p + "/"
+	case id == "pslash" && len(seg) > 2:
+		out = "/" + seg[1] + "%2F" + join(seg[2:])
+	case id == "pletter" && len(seg) > 1 && len(seg[1]) > 0:
+		c := append([]string{}, seg...)
+		c[1] = fmt.Sprintf("%%%02x", c[1][0]) + c[1][1:]
+		out = join(c)
+	case id == "plast" && len(seg) > 3 && len(seg[3]) > 0:
+		c := append([]string{}, seg...)
+		c[3] = fmt.Sprintf("%%%02x", c[3][0]) + c[3][1:]
+		out = join(c)
+	case id == "upper":
+		out = strings.ToUpper(p)
+	case id == "upapi" && len(seg) > 1:
+		c := append([]string{}, seg...)
+		c[1] = strings.ToUpper(c[1])
+		out = join(c)
+	case id == "title":
+		c := append([]string{}, seg...)
+		for i := 1; i < len(c) && i < 3; i++ {
+			if c[i] != "" {
+				c[i] = strings.ToUpper(c[i][:1]) + c[i][1:]
+			}
+		}
+		out = join(c)
+	case id == "bslash" && len(seg) > 2:
+		out = "/" + seg[1] + "%5C" + join(seg[2:])
+	}
+	if out == p {
+		return ""
+	}
+	return out
 }
 
 func c09Concrete(path string) string {
@@ -345,7 +496,7 @@ func (e *c09Env) request(method, pattern, hdr, query string) (obs string) {
 	select {
 	case <-reached:
 	case bgRes = <-bg:
-	case <-time.After(5 * time.Second):
+	case <-time.After(waitDeadline):
 		bgRes = "TIMEOUT"
 	}
 	fg := make(chan string, 1)
@@ -360,14 +511,14 @@ func (e *c09Env) request(method, pattern, hdr, query string) (obs string) {
 	if fgRes == "" {
 		select {
 		case fgRes = <-fg:
-		case <-time.After(10 * time.Second):
+		case <-time.After(waitDeadline):
 			fgRes = "TIMEOUT"
 		}
 	}
 	if bgRes == "" {
 		select {
 		case bgRes = <-bg:
-		case <-time.After(5 * time.Second):
+		case <-time.After(waitDeadline):
 			bgRes = "TIMEOUT"
 		}
 	}
@@ -414,12 +565,20 @@ func (e *c09Env) requestSlow(method, pattern, hdr, query string) string {
 	}
 	bg := make(chan string, 1)
 	go func() { bg <- e.bgAccess(other) }()
-	waitFor(2*time.Second, func() bool { return waiters() >= 1 })
+	waitFor(waitDeadline, func() bool { return waiters() >= 1 })
 	close(goOn)
 	// the request's own lookup waits too (not when it is refused before any lookup, or merged into another one)
 	waitFor(40*time.Millisecond, func() bool { return waiters() >= 2 })
 	release()
-	return <-fg + " bg=" + <-bg
+	get := func(ch chan string) string {
+		select {
+		case r := <-ch:
+			return r
+		case <-time.After(waitDeadline):
+			return "TIMEOUT"
+		}
+	}
+	return get(fg) + " bg=" + get(bg)
 }
 
 func (e *c09Env) requestPlain(method, pattern, hdr, query string) (obs string) {
@@ -438,7 +597,27 @@ func (e *c09Env) requestHooked(method, pattern, hdr, query string, pre func()) (
 	if strings.HasPrefix(hdr, "=") {
 		h["Authorization"] = e.subst(hdr[1:])
 	}
+	// "RAW.<spelling>:<METHOD>": the same request sent to a non-canonical spelling of the route's path
+	spelling := ""
+	if strings.HasPrefix(method, "RAW.") {
+		p := strings.SplitN(method[4:], ":", 2)
+		if len(p) != 2 {
+			return "HARNESS-ERROR bad RAW method"
+		}
+		spelling, method = p[0], p[1]
+	}
 	target, body := e.prepare(method, pattern)
+	if spelling != "" {
+		pth, q := target, ""
+		if i := strings.Index(target, "?"); i >= 0 {
+			pth, q = target[:i], target[i:]
+		}
+		sp := c09Spell(spelling, pth)
+		if sp == "" {
+			return "HARNESS-ERROR spelling does not apply"
+		}
+		target = sp + q
+	}
 	if query != "" {
 		target += query
 	}
@@ -463,6 +642,20 @@ func (e *c09Env) requestHooked(method, pattern, hdr, query string, pre func()) (
 		if _, err := e.fs.DB.Exec(`ALTER TABLE tokens_unavailable RENAME TO tokens`); err != nil {
 			return "HARNESS-ERROR " + err.Error()
 		}
+	}
+	if spelling != "" {
+		// routing-independent observable: did anything answer 2xx, did a table change
+		after := e.digests()
+		st := "refused"
+		if code >= 200 && code < 300 {
+			st = "2xx"
+		}
+		for i, n := range []string{"tokens", "webhooks", "headers"} {
+			if before[i] != after[i] {
+				return st + " CHANGED(" + n + ")"
+			}
+		}
+		return st + " unchanged"
 	}
 	if code != 401 {
 		return "pass"
@@ -564,11 +757,14 @@ func runC09(c *Ctx) error {
 		}
 	}
 	seen := map[string]bool{}
+	ncase := 0
 	for i, k := range c09Configs() {
 		if err := e.open(k, filepath.Join(base, fmt.Sprint(i))); err != nil {
 			return err
 		}
+		fmt.Fprintf(os.Stderr, "c09: configuration %s in flight\n", k)
 		c.Case(fmt.Sprintf("cfg=%s SETUP - H-", k), e.setupObs())
+		flushCases(c)
 		c.Count("fixture:setup-case")
 		one := func(r c09Route, hdr, class, q string) {
 			in := c09Input(k, r, hdr)
@@ -577,6 +773,9 @@ func runC09(c *Ctx) error {
 			}
 			seen[in] = true
 			c.Case(in, e.request(r.Method, r.Path, hdr, q))
+			if ncase++; ncase%200 == 0 {
+				flushCases(c) // a killed run still shows everything up to the cases in flight
+			}
 			c.Count("cred:" + class)
 			ck := k
 			if ck.admin != "" {
@@ -655,6 +854,45 @@ func runC09(c *Ctx) error {
 					sb.WriteString(c09Pieces[c.Rng.Intn(len(c09Pieces))])
 				}
 				one(rep[c.Rng.Intn(len(rep))], "="+sb.String(), "random", "")
+			}
+		}
+		if k.auth && k.plain() && !k.fail {
+			// credentials DERIVED from a valid one (digests, encodings, case, neighbours): never a credential
+			for _, r := range e.routes {
+				if !rep4(r) {
+					continue
+				}
+				for _, which := range []string{"U", "A"} {
+					for _, fn := range c09Derivations {
+						v := e.derive(fn, which)
+						if v == e.U || v == e.A || strings.ContainsAny(v, " \t") {
+							continue // e.g. upper-casing changes nothing: then it IS the credential
+						}
+						one(r, "=Bearer ${"+fn+":"+which+"}", "derived", "")
+					}
+				}
+			}
+		}
+		if ks := k.String(); ks == "100" || ks == "111" {
+			// non-canonical SPELLINGS of every API route (doubled slashes, dot segments, percent-encoding, case,
+			// trailing slash): whatever the router makes of them, a request without an accepted credential must
+			// not get a 2xx and must not change a table
+			for _, r := range e.routes {
+				if !strings.HasPrefix(r.Path, "/api/v1") {
+					continue
+				}
+				rawCreds := []c09Cred{{"-", "none"}, {"=Bearer $X", "unknown"}, {"=Bearer $R", "revoked"}, {"=bearer $A", "wrong-scheme"}}
+				if r.Path == "/api/v1/access" && r.Method == "POST" || r.Path == "/api/v1/access/:token" {
+					rawCreds = append(rawCreds, c09Cred{"=Bearer $U", "user"}) // valid, but not the admin
+				}
+				for _, sp := range c09Spellings {
+					if c09Spell(sp, c09Concrete(r.Path)) == "" {
+						continue
+					}
+					for _, cr := range rawCreds {
+						one(c09Route{"RAW." + sp + ":" + r.Method, r.Path}, cr.hdr, "spelling:"+cr.class, "")
+					}
+				}
 			}
 		}
 		if k.plain() {
